@@ -178,7 +178,8 @@ type trCase struct {
 
 // model name -> what is written into the files: XML metacharacters, quotes, an already-escaped-looking entity
 var trNames = map[string]string{"n1": `a<b&c>d`, "n2": `q"e'f&amp;g`}
-var trClasses = map[string]string{"c1": `pkg.K<1>`, "c2": `pkg.K&"2'`}
+// c0 = the case carries no classname at all (the attribute is omitted)
+var trClasses = map[string]string{"c0": ``, "c1": `pkg.K<1>`, "c2": `pkg.K&"2'`}
 
 func trGoName(e trEntry) string { return "Test" + trClasses[e.Cls] + "_" + trNames[e.Name] }
 
@@ -189,7 +190,11 @@ func xmlEsc(s string) string {
 }
 
 func trXMLCase(e trEntry, body string) string {
-	return fmt.Sprintf(`<testcase name="%s" classname="%s" time="0.010">%s</testcase>`+"\n", xmlEsc(trNames[e.Name]), xmlEsc(trClasses[e.Cls]), body)
+	cls := ""
+	if trClasses[e.Cls] != "" {
+		cls = fmt.Sprintf(` classname="%s"`, xmlEsc(trClasses[e.Cls]))
+	}
+	return fmt.Sprintf(`<testcase name="%s"%s time="0.010">%s</testcase>`+"\n", xmlEsc(trNames[e.Name]), cls, body)
 }
 
 func trXMLBody(out string) string {
@@ -449,12 +454,15 @@ func testResultsRender(args []string) error {
 				}
 			}
 		}
+		gonames := map[string]string{}
+		for cl := range trClasses {
+			for n := range trNames {
+				gonames[cl+"/"+n] = trGoName(trEntry{Cls: cl, Name: n})
+			}
+		}
 		emit(map[string]any{"id": c.ID, "attempts": len(c.Runs), "layout": layout,
 			"names": map[string]string{"n1": trNames["n1"], "n2": trNames["n2"]},
-			"classes": map[string]string{"c1": trClasses["c1"], "c2": trClasses["c2"]},
-			"gonames": map[string]string{
-				"c1/n1": trGoName(trEntry{Cls: "c1", Name: "n1"}), "c1/n2": trGoName(trEntry{Cls: "c1", Name: "n2"}),
-				"c2/n1": trGoName(trEntry{Cls: "c2", Name: "n1"}), "c2/n2": trGoName(trEntry{Cls: "c2", Name: "n2"})}})
+			"classes": trClasses, "gonames": gonames})
 		return nil
 	})
 }
